@@ -56,6 +56,8 @@ private:
 
     friend class ::tst_QXmppStream;
 
+    // received bytes that end inside a multi-byte UTF-8 character and can't be decoded yet
+    QByteArray m_undecodedBytes;
     QString m_dataBuffer;
     bool m_directTls = false;
     QSslSocket *m_socket = nullptr;
